@@ -1086,8 +1086,18 @@ class Walker:
                 raise AnalysisError('forking store target at line %d' % tgt.lineno)
             s, bv = res[0]
             tv = ast.Attribute(value=bv, attr=tgt.attr, ctx=ast.Store())
-            s = s.push(Op('attr_store', tgt, val=tv, info=val))
+            op = Op('attr_store', tgt, val=tv, info=val)
+            s = s.push(op)
             p = ast.unparse(tv)
+            # locals bound to the *path* p denote its value at binding time: give the
+            # old value a name of its own before the path is re-pointed
+            stale = [nm for nm, v in s.env.items() if v is not None and self._mentions(v, p)]
+            if stale:
+                old = self.token('o', ('old', p, op))
+                env = dict(s.env)
+                for nm in stale:
+                    env[nm] = self._replace_path(env[nm], p, old)
+                s = s.clone(env=env)
             if val is not None:
                 s = s.fbind(p, val)
             return s
@@ -1120,6 +1130,29 @@ class Walker:
         if isinstance(tgt, ast.Starred):
             return self.store(tgt.value, val, st, exits)
         raise AnalysisError('store target %s not modelled' % type(tgt).__name__)
+
+    @staticmethod
+    def _mentions(v, path):
+        for n in ast.walk(v):
+            if isinstance(n, ast.Attribute):
+                try:
+                    if ast.unparse(n) == path:
+                        return True
+                except Exception:
+                    pass
+        return False
+
+    @staticmethod
+    def _replace_path(v, path, tok):
+        class R(ast.NodeTransformer):
+            def visit_Attribute(self, n):
+                try:
+                    if ast.unparse(n) == path:
+                        return copy.deepcopy(tok)
+                except Exception:
+                    pass
+                return self.generic_visit(n)
+        return R().visit(copy.deepcopy(v))
 
     # ------------------------------------------------------------------
     # statements
